@@ -192,6 +192,9 @@ def tauOf (j : Json) : Except String ColType := do
     let t ← strOf (← j.getObjVal? "refList")
     pure (.refList t)
 
+def missing : Str := "?missing-parameter".toList
+def missingMeta : Meta := { str := some missing, repr := some missing, tname := missing }
+
 /-- rows of a table given as a JSON array of arrays -/
 def rowsOf (j : Json) (k : String) : Except String (List (Array Json)) := do
   match j.getObjVal? k with
@@ -200,8 +203,18 @@ def rowsOf (j : Json) (k : String) : Except String (List (Array Json)) := do
     let xs ← a.getArr?
     xs.toList.mapM (fun r => r.getArr?)
 
-def missing : Str := "?missing-parameter".toList
-def missingMeta : Meta := { str := some missing, repr := some missing, tname := missing }
+
+/-- instantiation of the `listMeta` parameter for the lists the engine itself builds from ints and
+    bools (`[n]` in ReferenceListColumn.convert): Python's repr of such a list -/
+def simpleListMeta (xs : List PyVal) : Meta :=
+  let item : PyVal → Option Str
+    | .int n _ => some (decInt n)
+    | .bool true => some "True".toList
+    | .bool false => some "False".toList
+    | _ => none
+  match xs.mapM item with
+  | some ss => let r := ['['] ++ joinComma ss ++ [']']; { str := some r, repr := some r, tname := "list".toList }
+  | none => missingMeta
 
 def resOf (j : Json) : Except String (Except Str PyVal) := do
   match j.getObjVal? "ok" with
@@ -257,7 +270,7 @@ def primOf (j : Json) : Except String Prim := do
     tsToDateFrac := fun f => (look dfrac f).getD (.error missing)
     dateNode := fun d => (look dn d).getD (.date missingMeta d (.int 0))
     refLookup := fun a => (look rlk (Json.arr (a.map encJson).toArray).compress).getD (.error missing)
-    listMeta := fun _ => missingMeta
+    listMeta := simpleListMeta
     tupleMeta := fun _ => missingMeta
     dictMeta := fun _ _ => missingMeta
     stubMeta := fun _ _ => missingMeta
@@ -295,6 +308,31 @@ def handlePyVal (j : Json) : Except String Json := do
     let e ← encOf (← j.getObjVal? "e")
     let d := decode P e
     pure <| Json.mkObj [("d", valJson d), ("e2", encJson (encode P d))]
+  | "modify" => do
+    -- C23: one cell through docactions.ModifyColumn + useractions.doModifyColumn
+    let τ ← tauOf (← j.getObjVal? "tau")
+    let v ← valOf (← j.getObjVal? "v")
+    let conv := colConvert P τ v
+    pure <| Json.mkObj [
+      ("conv", valJson conv),
+      ("cell", match modifyCell P τ v with | .ok c => valJson c | .error e => Json.mkObj [("error", jstr e)]),
+      ("enc", match modifyCell P τ v with | .ok c => encJson (encode P c) | .error _ => Json.null),
+      ("expect", match colSet P τ conv with | .ok c => encJson (encode P c) | .error _ => Json.null),
+      ("right", match modifyCell P τ v with | .ok c => toJson (isRightType τ c) | .error _ => Json.null)]
+  | "reload" => do
+    -- C07: a formula result v in a column of type tau: stored cell, its reloaded form, comparison
+    let τ ← tauOf (← j.getObjVal? "tau")
+    let v ← valOf (← j.getObjVal? "v")
+    let c := colConvert P τ v
+    match colSet P τ c with
+    | .error e => pure <| Json.mkObj [("error", jstr e)]
+    | .ok s =>
+      let e := encode P s
+      match reloadCell P τ s with
+      | .error e2 => pure <| Json.mkObj [("error", jstr e2)]
+      | .ok x =>
+        pure <| Json.mkObj [("c", valJson c), ("s", valJson s), ("e", encJson e), ("x", valJson x),
+          ("ex", encJson (encode P x)), ("eq", toJson (equalEncoding P x c)), ("eqs", toJson (equalEncoding P s c))]
   | _ => throw s!"unknown pyval op {op}"
 
 end Grist.Driver.PyValD
